@@ -371,7 +371,7 @@ def gen_select(j, rng, with_faults=False):
     if with_faults:
         faults = []
         for _ in range(rng.randint(1, 9)):
-            faults.append(rng.choice([None, None, "timeout", "timeout", "timeout", ["http", rng.choice([400, 401, 404, 429, 500, 502, 503])],
+            faults.append(rng.choice([None, None, "timeout", "timeout", "timeout", ["http", rng.choice([400, 401, 404, 429, 500, 502, 503, 301, 302, 304, 307, 308, 599, 418])],
                                       ["api", rng.choice([3101, 3004, 3144, 9999])],
                                       ["exc", rng.choice(["RemoteProtocolError", "ReadError", "ConnectError", "WriteError",
                                                           "LocalProtocolError", "ProxyError", "DecodingError",
@@ -404,7 +404,7 @@ def space(tier):
         if not p["twice"] and rng.random() < 0.25:
             # a one-off hard fault (HTTP 5xx / 4xx, API error, transport exception) on the k-th cloud request
             k = rng.choice([0, 1, 2, 2, 2, 3])
-            p["faults"] = [None] * k + [rng.choice([["http", 500], ["http", 503], ["http", 404], ["api", 3004], ["api", 3102],
+            p["faults"] = [None] * k + [rng.choice([["http", 500], ["http", 503], ["http", 404], ["http", 302], ["http", 307], ["api", 3004], ["api", 3102],
                                                     ["exc", "ConnectError"], ["exc", "RemoteProtocolError"]])]
             p["hard_fault"] = True
             p["ndev"] = 1
